@@ -131,6 +131,63 @@ theorem rightShift64_small_any {w n c : Nat} (hn : n < 64) (hw : w < W) (hc : c 
     have hle : c / 2 ^ (64 - n) * 2 ^ (64 - n) ≤ c := Nat.div_mul_le_self _ _
     exact rightShift64_small hn hw (Nat.lt_of_le_of_lt hle hc) (Nat.mul_mod_left _ _)
 
+/-- unified reading of `LeftShift64` for `n < 128`: the pair `carry:value` is the 128-bit register holding
+`w * 2^n + (carryIn mod 2^n)` (bits moved beyond 2^128 are discarded) -/
+theorem leftShift64_unified {w n c : Nat} (hn : n < 128) (hw : w < W) (hc : c < W) :
+    (leftShift64 w n c).1 + (leftShift64 w n c).2 * W = (w * 2 ^ n + c % 2 ^ n) % (W * W) := by
+  by_cases h : n < 64
+  · have s := leftShift64_small_any (c := c) h hw
+    rw [s.1]
+    symm
+    apply Nat.mod_eq_of_lt
+    have hp : 0 < 2 ^ n := Nat.two_pow_pos n
+    have h1 : c % 2 ^ n < 2 ^ n := Nat.mod_lt _ hp
+    have h2 : (w + 1) * 2 ^ n ≤ W * 2 ^ n := Nat.mul_le_mul_right _ hw
+    have h3 : W * 2 ^ n ≤ W * W := by
+      apply Nat.mul_le_mul_left
+      rw [W_eq_pow]
+      exact Nat.pow_le_pow_right (by decide) (by omega)
+    rw [Nat.add_mul, Nat.one_mul] at h2
+    omega
+  · rw [leftShift64_mid hw (by omega) hn]
+    have hcn : c % 2 ^ n = c := by
+      apply Nat.mod_eq_of_lt
+      apply Nat.lt_of_lt_of_le hc
+      rw [W_eq_pow]
+      exact Nat.pow_le_pow_right (by decide) (by omega)
+    rw [hcn, two_pow_ge_64 (by omega : 64 ≤ n), ← Nat.mul_assoc]
+    generalize w * 2 ^ (n - 64) = a
+    simp only [W] at *
+    omega
+
+/-- unified reading of `RightShift64` for `n < 128`: the pair `value:carry` is the 128-bit register `w:0` shifted
+right by `n`, with the high `n` bits (all 64 when `n ≥ 64`) of `carryIn` put in place in the high word -/
+theorem rightShift64_unified {w n c : Nat} (hn : n < 128) (hw : w < W) (hc : c < W) :
+    (rightShift64 w n c).1 * W + (rightShift64 w n c).2 =
+      w * W / 2 ^ n + c / 2 ^ (64 - n) * 2 ^ (64 - n) * W := by
+  by_cases h : n < 64
+  · have s := rightShift64_small_any h hw hc
+    rw [s.1, s.2]
+    have hpq := two_pow_split (Nat.le_of_lt h)
+    have hp : 0 < 2 ^ n := Nat.two_pow_pos n
+    have hw' := Nat.div_add_mod w (2 ^ n)
+    generalize c / 2 ^ (64 - n) * 2 ^ (64 - n) = C
+    generalize 2 ^ n = p at *
+    generalize 2 ^ (64 - n) = q at *
+    have e : w * W / p = w * q := by
+      rw [← hpq, Nat.mul_left_comm, Nat.mul_div_cancel_left _ hp]
+    rw [e, ← hpq]
+    generalize w / p = a at *
+    generalize w % p = b at *
+    subst hw'
+    grind
+  · rw [rightShift64_mid (by omega) hn]
+    have e0 : 64 - n = 0 := by omega
+    rw [e0, Nat.pow_zero, Nat.div_one, Nat.mul_one, two_pow_ge_64 (by omega : 64 ≤ n),
+      Nat.mul_div_mul_right _ _ W_pos]
+    simp only []
+    omega
+
 /-! ## the five comparison predicates, derived from a three-way `Cmp` result -/
 
 /-- value of an exact three-way comparison -/
